@@ -29,6 +29,10 @@ except ImportError:
     BYTECODE_SUFFIXES = [s[0] for s in imp.get_suffixes()
                          if s[2] == imp.PY_COMPILED]
 
+# offset of the source modification time in a .pyc header: since Python 3.7
+# (PEP 552) a flags word sits between the magic number and the time stamp
+PYC_TIME_OFFSET = sys.version_info[:2] >= (3, 7) and 8 or 4
+
 from pysmi.searcher.base import AbstractSearcher
 from pysmi.compat import decode
 from pysmi import debug
@@ -67,15 +71,14 @@ class PyFileSearcher(AbstractSearcher):
 
             try:
                 fp = open(f, 'rb')
-                pyData = fp.read(8)
+                pyData = fp.read(PYC_TIME_OFFSET + 4)
                 fp.close()
 
             except IOError:
                 raise error.PySmiSearcherError('failure opening compiled file %s: %s' % (f, sys.exc_info()[1]),
                                                searcher=self)
             if pyData[:4] == PY_MAGIC_NUMBER:
-                pyData = pyData[4:]
-                pyTime = struct.unpack('<L', pyData[:4])[0]
+                pyTime = struct.unpack('<L', pyData[PYC_TIME_OFFSET:PYC_TIME_OFFSET + 4])[0]
                 debug.logger & debug.flagSearcher and debug.logger(
                     'found %s, mtime %s' % (f, time.strftime("%a, %d %b %Y %H:%M:%S GMT", time.gmtime(pyTime))))
                 if pyTime >= mtime:
